@@ -765,14 +765,20 @@ def call_repo(ex, q, self_val, args, kw, st):
         # is loop-free and not being inlined already; anything else needs a contract
         has_loop = any(isinstance(n, (ast.For, ast.While, ast.AsyncFor)) for n in ast.walk(node))
         stack = getattr(ex, '_auto_inline_stack', [])
-        if has_loop or q in stack or len(stack) > 6:
+        if q in stack or len(stack) > 6:
             raise OutsideSubset('call of %s which has no contract' % q)
         lib('helper without a contract executed in place: ' + q)
         ex._auto_inline_stack = stack + [q]
+        # a helper with loops can only be executed in place if every loop runs over KNOWN elements (it is then unrolled);
+        # a loop that would have to be cut needs an invariant, i.e. a contract
+        saved_flag = getattr(ex, '_no_cut_loops', None)
+        if has_loop:
+            ex._no_cut_loops = q
         try:
             return call_repo_inline(ex, q, node, self_val, args, kw, st)
         finally:
             ex._auto_inline_stack = stack
+            ex._no_cut_loops = saved_flag
     modname = q
     # find the module globals of the callee
     mod = None
